@@ -130,7 +130,8 @@ def run_tlc(module, cfg, workdir, env=None, workers=8, simulate=None, depth=None
         if r.invariant_violated and allow_invariant_violation:
             return r
         tail = "\n".join([ln[:300] for ln in p.stdout.splitlines() if not ln.startswith('"')][-25:])
-        raise TLCError(f"TLC failed on {module} ({tag}), rc={p.returncode}:\n{tail}")
+        errs = "\n".join([ln[:300] for ln in p.stdout.splitlines() if ln.startswith("Error:")][:5])
+        raise TLCError(f"TLC failed on {module} ({tag}), rc={p.returncode}:\n{errs}\n...\n{tail}")
     return r
 
 
